@@ -1,6 +1,7 @@
 package world
 
 import (
+	"strings"
 	"errors"
 	"fmt"
 	"os"
@@ -63,6 +64,7 @@ type Control struct {
 	StartFn func(rid string)
 	// CancelFn makes the caller of a request go away (cancels its context).
 	CancelFn func(rid string)
+	cancelled map[string]bool
 	// Blocked records "rid blocked on lock held by rid" observations.
 	Blocked []string
 }
@@ -129,8 +131,9 @@ func (c *Control) Point(rid, site, key string) string {
 	}
 	c.mu.Lock()
 	defer c.mu.Unlock()
+	frid := strings.TrimSuffix(rid, "~") // (a fault planned for a request also meets work running beside that request)
 	for _, f := range c.faults {
-		if f.Site != site || (f.Rid != "" && f.Rid != rid) || (f.Key != "" && f.Key != key) {
+		if f.Site != site || (f.Rid != "" && f.Rid != frid) || (f.Key != "" && f.Key != key) {
 			continue
 		}
 		f.seen++
@@ -151,6 +154,7 @@ func (c *Control) StartGating(rids []string, lazy map[string]bool) {
 	c.gating = true
 	c.reqs = map[string]*reqState{}
 	c.owner = map[string]string{}
+	c.cancelled = nil
 	c.Deviate = nil
 	c.Blocked = nil
 	for _, r := range rids {
@@ -189,6 +193,11 @@ func (c *Control) StopGating() {
 func (c *Control) park(rid, site, key string) {
 	c.mu.Lock()
 	s := c.reqs[rid]
+	if s == nil && c.gating && strings.HasSuffix(rid, "~") && c.reqs[strings.TrimSuffix(rid, "~")] != nil {
+		// work running beside / after its request (see InstallHook): an actor of its own, created on first sight
+		s = &reqState{status: "running"}
+		c.reqs[rid] = s
+	}
 	if s == nil || !c.gating {
 		c.mu.Unlock()
 		return
@@ -262,6 +271,12 @@ func (c *Control) Done(rid string) {
 
 // stable reports, under c.mu, whether request state s cannot change without scheduler action.
 func (c *Control) stableLocked(rid string, s *reqState) bool {
+	if s.status == "running" {
+		// a request whose storage step is being taken by work beside it (actor rid~) that is parked waits for that work
+		if o := c.reqs[rid+"~"]; o != nil && o.status == "parked" {
+			return true
+		}
+	}
 	switch s.status {
 	case "parked", "done", "unstarted":
 		return true
@@ -306,8 +321,8 @@ func (c *Control) releaseLocked(rid string) {
 	s := c.reqs[rid]
 	if s != nil && s.status == "parked" {
 		s.status = "running"
-		if s.finished {
-			s.status = "done"
+		if s.finished || strings.HasSuffix(rid, "~") {
+			s.status = "done" // (an actor beside its request is not followed further; if it reaches another gate it parks again)
 		}
 		close(s.release)
 	}
@@ -367,6 +382,7 @@ func (c *Control) RunSchedule(tokens []Token) SchedResult {
 	// e.g. a lock taken inside the locker itself, whose holder may be parked at a gate).  The imposed schedule is given up: every
 	// parked or unstarted request is let go and the requests run freely; whether they finish, or end up waiting on each other,
 	// is then established as usual (logged lock ownership, or the goroutine dump of the watchdog).
+	orphanWaits := map[string]int{}
 	abandoned := false
 	abandon := func() {
 		abandoned = true
@@ -387,6 +403,12 @@ tokenLoop:
 		if t.Site == "cancel" {
 			// the caller of this request goes away now (wherever the request is parked)
 			if c.waitStable(to) && c.CancelFn != nil {
+				c.mu.Lock()
+				if c.cancelled == nil {
+					c.cancelled = map[string]bool{}
+				}
+				c.cancelled[t.Rid] = true
+				c.mu.Unlock()
 				c.CancelFn(t.Rid)
 				// give the request's own goroutine a moment to notice (a request that does not look at its context notices nothing)
 				time.Sleep(30 * time.Millisecond)
@@ -435,6 +457,10 @@ tokenLoop:
 			noteBlocked()
 			c.mu.Lock()
 			s := c.reqs[t.Rid]
+			rid := t.Rid
+			if s2 := c.reqs[t.Rid+"~"]; s2 != nil && s2.status == "parked" && s2.site == t.Site {
+				s, rid = s2, t.Rid+"~" // the step the token names is being taken by work running beside the request
+			}
 			if s != nil && s.status == "done" && t.Site == "done" {
 				c.mu.Unlock()
 				break
@@ -451,6 +477,14 @@ tokenLoop:
 						continue
 					}
 				}
+			}
+			if s != nil && s.status == "done" && c.cancelled[t.Rid] && t.Site != "done" && orphanWaits[t.Rid] < 3 {
+				// the caller of this request has gone away and the request has been answered; work that was started for it may still
+				// be on its way to a gate (it would be an orphan: the shipped code starts none) - give it a moment before moving on
+				orphanWaits[t.Rid]++
+				c.mu.Unlock()
+				time.Sleep(150 * time.Millisecond)
+				continue
 			}
 			if s == nil || s.status != "parked" {
 				st := "unknown"
@@ -485,7 +519,7 @@ tokenLoop:
 				c.mu.Unlock()
 				break
 			}
-			c.releaseLocked(t.Rid)
+			c.releaseLocked(rid)
 			c.mu.Unlock()
 			if hit {
 				break
